@@ -282,8 +282,17 @@ func (w *World) BaseMem() map[string]AV {
 				if !ok {
 					continue
 				}
-				c, ok := st.Val.(*ssa.Const)
-				if !ok || c.Value == nil {
+				var cv AV
+				switch c := st.Val.(type) {
+				case *ssa.Const:
+					if c.Value == nil {
+						continue
+					}
+					cv = constAV(c)
+				case *ssa.Function:
+					// a function literal without free variables, or a named function
+					cv = AV{Kind: KFunc, Fn: c}
+				default:
 					continue
 				}
 				root, sel, ok := constAddrChain(st.Addr)
@@ -295,7 +304,7 @@ func (w *World) BaseMem() map[string]AV {
 					if written[r] || !isAggregate(r.Type().(*types.Pointer).Elem()) || !w.readOnlyOutsideInit(r) {
 						continue
 					}
-					w.baseMem["G:"+globalName(r)+"|"+sel] = constAV(c)
+					w.baseMem["G:"+globalName(r)+"|"+sel] = cv
 				case *ssa.Alloc:
 					g := sliceOf[r]
 					if g == nil {
@@ -305,7 +314,7 @@ func (w *World) BaseMem() map[string]AV {
 						continue
 					}
 					loc := allocLoc(r)
-					w.baseMem[loc+"|"+sel] = constAV(c)
+					w.baseMem[loc+"|"+sel] = cv
 					at := r.Type().Underlying().(*types.Pointer).Elem().Underlying().(*types.Array)
 					w.baseMem["G:"+globalName(g)] = AV{Kind: KSliceOf, Loc: loc, N: int(at.Len())}
 				}
